@@ -387,6 +387,9 @@ def run_harness(cases, workdir, shards=NPROC, timeout=900):
 # --------------------------------------------------------------------------
 # Coq model
 
+LAST_TRANSLATE_NOTES = []
+
+
 def coq_build(targets=None, timeout=1500):
     """regenerate Extracted.v from the source, then (re)build the .vo files"""
     t0 = time.time()
@@ -394,7 +397,9 @@ def coq_build(targets=None, timeout=1500):
                         os.path.join(COQ, "Extracted.v")], capture_output=True, text=True)
     if p.returncode != 0:
         return False, "translate.py failed: " + p.stderr.strip()
-    tnote = p.stderr.strip()       # facts that could not be translated (their users will not compile)
+    tnote = p.stderr.strip()       # facts not re-read from the source this run (fallback values or missing)
+    global LAST_TRANSLATE_NOTES
+    LAST_TRANSLATE_NOTES = [l for l in tnote.splitlines() if l.strip()]
     if not os.path.exists(os.path.join(COQ, "Makefile")) or \
             os.path.getmtime(os.path.join(COQ, "Makefile")) < os.path.getmtime(os.path.join(COQ, "_CoqProject")):
         q = subprocess.run(["coq_makefile", "-f", "_CoqProject", "-o", "Makefile"], cwd=COQ,
